@@ -69,7 +69,7 @@ def cases(draw):
         elif k == 9:
             cmds.append(['incomplete', draw(st.integers(0, 1))])
         elif k == 10:
-            cmds.append(['blank-inside', draw(st.integers(0, 1))])
+            cmds.append(['blank-inside', draw(st.integers(0, 3))])      # incl. several complete statements in one command
         else:
             cmds.append(['big-nl', draw(st.sampled_from([0, 5, 1999, 2000, 2001, 70000]))])
     return {'repl': repl, 'mode': draw(st.sampled_from(['sync', 'sync', 'async'])), 'cmds': cmds}
@@ -93,7 +93,8 @@ def render(repl, c):
             return 'for i in %s\ndo echo "n$i"\ndone' % ' '.join(str(i) for i in range(c[1])), ''.join('n%d\n' % i for i in range(c[1]))
         if kind == 'blank-inside':
             # an interior empty line is part of the command (quoted string / here-document)
-            return [('echo "a\n\nb"', 'a\n\nb\n'), ('cat <<EOF\none\n\n\ntwo\nEOF', 'one\n\n\ntwo\n')][c[1]]
+            return [('echo "a\n\nb"', 'a\n\nb\n'), ('cat <<EOF\none\n\n\ntwo\nEOF', 'one\n\n\ntwo\n'),
+                    ('echo first\necho second', 'first\nsecond\n'), ("printf a\ntrue\nprintf b\necho c", 'abc\n')][c[1]]
         return ['echo "abc', 'if true; then'][c[1]], None
     if kind == 'word-nonl':
         return '_ = sys.stdout.write(%r)' % c[1], c[1]
@@ -109,7 +110,8 @@ def render(repl, c):
         return 'for i in range(%d):\n    print("n%%d" %% i)\n' % c[1], ''.join('n%d\n' % i for i in range(c[1]))
     if kind == 'blank-inside':
         # a block closed by an empty line, followed by another statement
-        return [('def f_():\n    return 7\n\nprint(f_())', '7\n'), ('for i in range(2):\n    print(i)\n\nprint("z")', '0\n1\nz\n')][c[1]]
+        return [('def f_():\n    return 7\n\nprint(f_())', '7\n'), ('for i in range(2):\n    print(i)\n\nprint("z")', '0\n1\nz\n'),
+                ("print('p')\nprint('q')", 'p\nq\n'), ("_ = sys.stdout.write('m')\npass\nprint('n')", 'mn\n')][c[1]]
     return ['(1,', 'def f():'][c[1]], None
 
 
